@@ -27,7 +27,7 @@ ASG = [("AEq", "="), ("AAdd", "+="), ("ASub", "-="), ("AMul", "*="), ("ADiv", "/
        ("AShr", ">>="), ("APow", "**=")]
 UN = [("UNeg", "-"), ("UNot", "!"), ("UBnot", "~")]
 CASTS = ["int", "string", "bool", "float", "foo"]     # index 4 is not a conversion function (error path)
-VARS = ["a", "b", "c", "d"]
+VARS = ["a", "b", "c", "d"] + ["r%d" % i for i in range(20)]    # r<i>: placeholder variable standing for RAW[i]
 BIN_LIT = {c: l for c, l, _ in BIN}
 BIN_LVL = {c: n for c, _, n in BIN}
 LIT_BIN = {l: c for c, l, _ in BIN}
@@ -37,9 +37,31 @@ UN_LIT = dict(UN)
 
 
 # ---------------------------------------------------------------- trees (nested lists)
+RAW = ["g($a)", "g($b, 1)", "$arr[0]", "$arr[$a]", "$o->p", "$o->m()", "K::C", "K::s()", "(new K())->p", "1.5", "2e1", "0x10",
+       "$arr[1][0]", "strlen('ab')"]    # operand shapes outside the model's token alphabet: value oracle only
+
+
+LRAW = [2, 4, 12]     # the RAW entries usable as assignment targets
+
+
+def has_raw(e):
+    return e[0] == "raw" or any(isinstance(c, list) and has_raw(c) for c in e[1:])
+
+
+def has_lraw(e):
+    return (e[0] == "asg" and e[2][0] == "raw") or any(isinstance(c, list) and has_lraw(c) for c in e[1:])
+
+
+def unraw(e):
+    """the same tree with every raw operand replaced by its placeholder variable"""
+    if e[0] == "raw":
+        return ["var", 4 + e[1]]
+    return [unraw(c) if isinstance(c, list) else c for c in e]
+
+
 def prec(e):
     k = e[0]
-    if k in ("var", "int", "nint", "str", "true", "false", "null", "par"):
+    if k in ("var", "int", "nint", "str", "true", "false", "null", "par", "raw"):
         return 17
     if k == "bin":
         return BIN_LVL[e[1]]
@@ -81,7 +103,7 @@ def pmin(ctx, e):
 
 
 def is_atom(e):
-    return e[0] in ("var", "int", "nint", "str", "true", "false", "null")
+    return e[0] in ("var", "int", "nint", "str", "true", "false", "null", "raw")
 
 
 def pfull(e):
@@ -160,10 +182,14 @@ def toks(e, tight):
         return [("str", '"s%d"' % e[1])]
     if k in ("true", "false", "null"):
         return [(k, "")]
+    if k == "raw":
+        return [("raw", RAW[e[1]])]
     if k == "bin":
         right = toks(e[3], tight)
         if e[1] == "OSub" and tight and right[0][0] == "int" and not right[0][1].startswith("-"):
             return toks(e[2], tight) + [("int", "-" + right[0][1])] + right[1:]
+        if e[1] == "OSub" and tight and right[0][0] == "raw" and right[0][1][0].isdigit():
+            return toks(e[2], tight) + [("raw", "-" + right[0][1])] + right[1:]
         return toks(e[2], tight) + [("op", BIN_LIT[e[1]])] + right
     if k == "asg":
         return toks(e[2], tight) + [("op", ASG_LIT[e[1]])] + toks(e[3], tight)
@@ -180,11 +206,25 @@ def toks(e, tight):
     raise ValueError(k)
 
 
-def render(tk):
+def render(tk, compact=False):
+    """spaced: one space between tokens.  compact: no space unless dropping it would change the token stream
+    (two word-like tokens, two operator characters meeting, or a minus before a digit that is not meant to fold)."""
     out = []
-    for c, t in tk:
-        out.append(t if c not in ("true", "false", "null") else c)
-    return " ".join(out)
+    words = [t if c not in ("true", "false", "null") else c for c, t in tk]
+    if not compact:
+        return " ".join(words)
+    opch = set("+-*/%=<>!&|^~?:.")
+    res = ""
+    for w in words:
+        if res:
+            a, b = res[-1], w[0]
+            wordish = lambda ch: ch.isalnum() or ch in "_$'\""
+            if (wordish(a) and wordish(b)) or (a in opch and b in opch) or (a == "-" and b.isdigit()) or (a in opch and b == "-") \
+                    or (a == ")" and wordish(b)) or (a == "?" or b == "?") or a == ":" or b == ":" \
+                    or (a.isdigit() and b == ".") or (a == "." and b.isdigit()):
+                res += " "
+        res += w
+    return res
 
 
 def ops_of(e):
@@ -368,7 +408,25 @@ def rand_atom(rng):
         return ["nint", rng.choice([2, 3, 5])]
     if r < 0.92:
         return ["str", rng.randrange(2)]
+    if r < 0.95 and RAW_ON[0]:
+        return ["raw", rng.randrange(len(RAW))]
     return [rng.choice(["true", "false", "null"])]
+
+
+RAW_ON = [False]
+# (source, the table's reading) pairs around the sign-folding lexer rule; the first three are the documented finding
+# signed-literal-pow (a literal -k is one token, so ** sees it as its left operand), the others must agree
+SIGN_PROBES = [("!-2 ** 2", "!(-(2 ** 2))"), ("~-2 ** 2", "~(-(2 ** 2))"), ("(int)-2 ** 2", "(int)(-(2 ** 2))"),
+               ("2 ** -2 ** 2", "2 ** (-(2 ** 2))"), ("1 - -2 ** 2", "1 - (-(2 ** 2))"),
+               ("$a-1", "$a - 1"), ("$a -1", "$a - 1"), ("1+-2", "1 + (-2)"), ("2**-1", "2 ** (-1)"), ("$a- -1", "$a - (-1)"),
+               ("$a - - 1", "$a - (-1)"), ("$a+1", "$a + 1"), ("$a +1", "$a + 1"), ("$a - -$b", "$a - (-$b)"), ("$a+1.5", "$a + 1.5"),
+               ("g($a)?-1:2", "g($a) ? (-1) : 2"), ("g($a) ?$b:2", "g($a) ? $b : 2"), ("$arr[0]?$b:2", "$arr[0] ? $b : 2"),
+               ("1.5-1", "1.5 - 1"), ("$a-1.5", "$a - 1.5"), ("$a -1.5", "$a - 1.5"), ("1-0x10", "1 - 0x10"), ("$a-2e1", "$a - 2e1"), ("$arr[0]-1", "$arr[0] - 1"), ("g($a)-1", "g($a) - 1"),
+               ("$o->p-1", "$o->p - 1"), ("K::C-1", "K::C - 1"), ("'5'-1", "'5' - 1"), ("true-1", "true - 1"),
+               ("$a--1", None), ("-$a ** 2", "-($a ** 2)"), ("(-2) ** 2", "4"), ("$a*-1", "$a * (-1)"), ("$a.-1", "$a . (-1)"),
+               ("$a ? -1 : -2", "$a ? (-1) : (-2)"), ("$a<-1", "$a < (-1)"), ("$a=-1", "$a = (-1)")]
+SIGN_PROBES = [(a, b) for a, b in SIGN_PROBES if b is not None]
+SIGN_FOLD_KNOWN = 5     # the first five probes are instances of the finding signed-literal-pow
 
 
 def rand_tree(rng, depth):
@@ -403,6 +461,7 @@ def op_shapes():
     return shapes
 
 
+ncombos = [0]
 ATOMS = [["var", 1], ["int", 3], ["var", 2], ["int", 7], ["var", 3], ["int", 2], ["int", 5]]
 
 
@@ -430,6 +489,21 @@ def pair_trees():
     return out
 
 
+def raw_trees():
+    """every operator with every raw operand shape in every operand slot; assignment operators also with raw targets"""
+    out = []
+    for a in op_shapes():
+        for r in range(len(RAW)):
+            for slot in range(a[1]):
+                xs = [["raw", r] if j == slot else ATOMS[j] for j in range(a[1])]
+                out.append(a[2](xs))
+    for c, _ in ASG:
+        for r in LRAW:
+            out.append(["asg", c, ["raw", r], ["int", 3]])
+            out.append(["bin", "OAdd", ["int", 1], ["asg", c, ["raw", r], ["bin", "OMul", ["var", 1], ["int", 2]]]])
+    return out
+
+
 def triple_trees(rng, limit):
     """op1[op2[op3]] chains and op1[op2, op3] forks over all operators; sampled when limit is set"""
     sh = op_shapes()
@@ -438,6 +512,7 @@ def triple_trees(rng, limit):
         for b in sh:
             for c in sh:
                 combos.append((a, b, c))
+    ncombos[0] = len(combos)
     if limit and len(combos) > limit:
         combos = rng.sample(combos, limit)
     out = []
@@ -469,8 +544,9 @@ def triple_trees(rng, limit):
     return out
 
 
-PRE = "$a = 2; $b = 3; $c = 5; $d = 7;"
-POST = "echo json_encode([gettype($r), $r, $a, $b, $c, $d]);"
+PRE = ("function g($x, $y = 1) { return $x * 3 + $y; }\nclass K { const C = 11; public $p = 13; static function s() { return 17; } "
+       "function m() { return 19; } }\n$a = 2; $b = 3; $c = 5; $d = 7; $arr = [23, [29, 31], 37]; $o = new K();")
+POST = "echo json_encode([gettype($r), $r, $a, $b, $c, $d, $arr, $o->p]);"
 
 
 def run_impl(binary, cases, nproc=8):
@@ -537,7 +613,11 @@ def mk_cases(tree, rng, tid, styles):
             if tight and tk == toks(d, False):
                 continue
             res.append({"tid": tid, "tree": tree, "deco": d, "wf": wf, "tight": tight, "style": style,
-                        "text": render(tk), "eval": wf})
+                        "text": render(tk), "eval": wf, "coq": not has_raw(tree)})
+            if style == "min" and rng.random() < 0.35:
+                # the same tokens written without optional spaces ($a-1, 1+-2, 2**-1)
+                res.append({"tid": tid, "tree": tree, "deco": d, "wf": wf, "tight": tight, "style": "compact",
+                            "text": render(tk, compact=True), "eval": wf, "coq": not has_raw(tree)})
     return res
 
 
@@ -568,20 +648,51 @@ def main(ck):
         quick = ck.tier == "quick"
         trees = []
         trees += pair_trees()
-        trees += triple_trees(rng, 1200 if quick else 30000)
+        npairs = len(trees)
+        # quick: a seeded sample of operator triples; thorough: all 44^3 of them (the sampled 30000 with every style,
+        # the rest in the minimal printing only)
+        tri = triple_trees(rng, 1200 if quick else 0)
+        trees += tri
+        nfull = len(trees) if quick else npairs + 90000
         nrand = 2000 if quick else 25000
         for _ in range(nrand):
             trees.append(rand_tree(rng, rng.choice([2, 3, 3, 4, 4, 5])))
+        # operand shapes outside the model alphabet (calls, indexing, ->, ::, new, float/hex literals)
+        nmodel = len(trees)
+        trees += raw_trees()
+        RAW_ON[0] = True
+        for _ in range(400 if quick else 6000):
+            t = rand_tree(rng, rng.choice([2, 3, 3, 4]))
+            if has_raw(t):
+                trees.append(t)
+        RAW_ON[0] = False
         for tid, t in enumerate(trees):
             styles = ["min", "full"]
             if tid % 3 == 0:
                 styles.append("red")
             if tid % 4 == 0:
                 styles.append("drop")
+            if npairs <= tid < nmodel - nrand and tid >= nfull:
+                styles = ["min"]
             cases += mk_cases(t, rng, tid, styles)
+        # companions of the raw-operand cases: the same printing with each raw operand replaced by its placeholder variable
+        # (checked against model and table like every other case); the real tree of the raw case must be the companion's
+        # real tree with the raw operand's own tree put back
+        comp = []
+        for j, c in enumerate(cases):
+            if not c["coq"] and not has_lraw(c["tree"]):
+                d = unraw(c["deco"])
+                tk = toks(d, c["tight"])
+                comp.append({"tid": c["tid"], "tree": unraw(c["tree"]), "deco": d, "wf": c["wf"], "tight": c["tight"],
+                             "style": c["style"], "text": render(tk, compact=c["style"] == "compact"), "eval": False,
+                             "coq": True, "companion_of": j})
+        cases += comp
         # the sign-folding lexer rule against the table (known finding signed-literal-pow)
         probes = [{"text": "-2 ** 2", "eval": True}, {"text": "-(2 ** 2)", "eval": True},
                   {"text": "- 2 ** 2", "eval": True}]
+        probes += [{"text": r, "eval": False} for r in RAW]
+        for a, b in SIGN_PROBES:
+            probes += [{"text": a, "eval": True}, {"text": b, "eval": True}]
 
     ck.log("generated %d cases" % len(cases))
     outs, rc, err = run_impl(binary, cases + probes)
@@ -592,8 +703,10 @@ def main(ck):
         ck.finish(evaluations=len(outs), distinct_nontrivial=0, rule="harness crashed")
     o_cases, o_probes = outs[:len(cases)], outs[len(cases):]
 
-    terms = [coq_case(c, o) for c, o in zip(cases, o_cases)]
+    coq_idx = [j for j, c in enumerate(cases) if c.get("coq", True)]
+    terms = [coq_case(cases[j], o_cases[j]) for j in coq_idx]
     bad = ck.eval_cases("cases", HEADER, terms, "check_case", shard=1200)
+    bad = {coq_idx[k]: v for k, v in bad.items()}
     ck.log("model/spec evaluated")
     unsup = 0
     names = {1: "generator: source not well-parenthesised", 2: "real lexer tokens != Spec.pr",
@@ -635,14 +748,50 @@ def main(ck):
             ops = "".join(sorted(set(ops_of(c0["tree"]))))
             ck.violation("value:%s" % ops, {"case": c0, "printings": [(c["text"], o.get("val"), o.get("vout")) for c, o in lst],
                                              "clause": "value of printings differ"})
+    raw_checked = 0
     if probes:
-        a, b, c = o_probes
+        a, b, c = o_probes[:3]
         if (a.get("val"), a.get("vout")) != (b.get("val"), b.get("vout")):
             ck.violation("signed-literal-pow", {"case": {"text": "-2 ** 2"}, "impl_out": a, "spec_out": b,
                                                  "clause": "-2 ** 2 must equal -(2 ** 2): ** binds tighter than unary minus"})
         if (c.get("val"), c.get("vout")) != (b.get("val"), b.get("vout")):
             ck.violation("spaced-minus-pow", {"case": {"text": "- 2 ** 2"}, "impl_out": c, "spec_out": b,
                                                "clause": "- 2 ** 2 must equal -(2 ** 2)"})
+        raw_out = o_probes[3:3 + len(RAW)]
+        for r, o in zip(RAW, raw_out):
+            if o.get("perr") or o.get("panic") or not o.get("tree"):
+                ck.violation("raw-operand:parse:" + r, {"case": {"text": r}, "impl_out": o, "clause": "operand shape does not parse"})
+        sp = o_probes[3 + len(RAW):]
+        for k, (src, want) in enumerate(SIGN_PROBES):
+            x, y = sp[2 * k], sp[2 * k + 1]
+            if (x.get("val"), x.get("vout")) != (y.get("val"), y.get("vout")) or x.get("val") == "parse":
+                key = ("signed-literal-pow:" if k < SIGN_FOLD_KNOWN else "sign-fold:") + src.replace(" ", "")
+                ck.violation(key, {"case": {"text": src}, "impl_out": x, "spec_text": want, "spec_out": y,
+                                   "clause": "%s must evaluate like %s" % (src, want)})
+        # raw-operand cases: structure against the companion, and the wf printings must parse
+        for cj, cc in enumerate(cases):
+            j = cc.get("companion_of")
+            if j is None:
+                continue
+            c, o, oc = cases[j], o_cases[j], o_cases[cj]
+            raw_checked += 1
+            ops = "".join(sorted(set(ops_of(c["tree"]))))
+            if oc.get("tree") and not oc.get("perr"):
+                want = oc["tree"]
+                for i, r in enumerate(RAW):
+                    want = want.replace("(var r%d)" % i, raw_out[i].get("tree") or "(?)")
+                got = o.get("tree") if not o.get("perr") and not o.get("panic") else "error: %s" % (o.get("perr") or o.get("panic"))
+            else:
+                want = "error"
+                got = "error" if (o.get("perr") or o.get("panic")) else o.get("tree")
+            if want != got:
+                ck.violation("raw-operand:%s" % ops, {"case": c, "impl_out": o, "companion": cc["text"], "expected_tree": want,
+                                                      "clause": "tree with a call/index/member/float operand differs from the tree "
+                                                                "of the same source with a variable in its place"})
+        for c, o in zip(cases, o_cases):
+            if not c.get("coq", True) and c["wf"] and (o.get("perr") or o.get("panic")):
+                ops = "".join(sorted(set(ops_of(c["tree"]))))
+                ck.violation("raw-operand:%s" % ops, {"case": c, "impl_out": o, "clause": "well-parenthesised source rejected"})
 
     # ---- measured coverage
     distinct = set()
@@ -663,13 +812,16 @@ def main(ck):
     ck.samples = [c["text"] for c in (cases[:2] + cases[len(cases) // 2: len(cases) // 2 + 3] + cases[-3:])]
     ck.cov["operator_distribution"] = opdist
     ck.cov["operators_per_source_distribution"] = {str(k): v for k, v in sorted(depthdist.items())}
-    ck.cov["styles"] = {s: sum(1 for c in cases if c["style"] == s) for s in ("min", "full", "red", "drop")}
+    ck.cov["styles"] = {s: sum(1 for c in cases if c["style"] == s) for s in ("min", "full", "red", "drop", "compact")}
+    ck.cov["raw_operand_cases"] = sum(1 for c in cases if not c.get("coq", True))
+    ck.cov["raw_operand_cases_structurally_checked"] = raw_checked
+    ck.cov["sign_fold_probes"] = len(SIGN_PROBES)
     ck.cov["tight_minus_cases"] = sum(1 for c in cases if c["tight"])
     ck.cov["model_unsupported"] = unsup
     ck.cov["evaluated_on_interpreter"] = valued
     ck.cov["interpreter_outcomes"] = outcomes
     ck.cov["exhaustive"] = "all ordered operator pairs x operand slot over %d operators; triples: %s" % (
-        len(op_shapes()), "seeded sample of 1200 operator triples (all slots, chain and fork)" if ck.tier == "quick" else "seeded sample of 30000 operator triples")
+        len(op_shapes()), "seeded sample of 1200 of the %d operator triples (all slots, chain and fork)" % ncombos[0] if ck.tier == "quick" else "all %d operator triples (all slots, chain and fork)" % ncombos[0])
     ck.finish(level="proof", evaluations=len(cases) + len(probes), distinct_nontrivial=nontriv,
               rule="expression trees over 24 binary, 14 assignment, 3 prefix operators, casts, ?: and ?:-elvis: every ordered "
                    "operator pair in every operand slot, operator triples, seeded random trees of depth 2..5; each printed with "
